@@ -38,6 +38,9 @@ def val(v):
     if v["k"] == "int":
         n = int(v["v"])
         return "(VInt %d%%Z)" % n if n >= 0 else "(VInt (%d)%%Z)" % n
+    if v["k"] == "float":
+        import struct
+        return "(VFloat %d)" % struct.unpack(">Q", struct.pack(">d", float(v["v"])))[0]
     return "(VStr %s)" % coq_hex(hexs(v.get("v", "")))
 
 
@@ -110,7 +113,7 @@ def slim(c):
 SIZES = {  # per property: harness arguments per tier
     "C01": {"quick": dict(n01=700, n10r=0, n10f=12, n10m=0, n09=0, ncor=20, kf=4),
             "thorough": dict(n01=5000, n10r=0, n10f=60, n10m=0, n09=0, ncor=100, kf=0)},
-    "C10": {"quick": dict(n01=0, n10r=250, n10f=60, n10m=150, n09=0, ncor=0, kf=6),
+    "C10": {"quick": dict(n01=0, n10r=250, n10f=60, n10m=120, n09=0, ncor=0, kf=6),
             "thorough": dict(n01=0, n10r=1200, n10f=300, n10m=800, n09=0, ncor=0, kf=0)},
     "C09": {"quick": dict(n01=0, n10r=0, n10f=0, n10m=0, n09=900, ncor=0, kf=0),
             "thorough": dict(n01=0, n10r=0, n10f=0, n10m=0, n09=8000, ncor=0, kf=0)},
@@ -170,6 +173,16 @@ def run_property(chk, prop, prop_file, req, rule, assumptions, only=None):
     if data.get("truncated") and not chk.violations:
         chk.violation("%s: the run through the real rollback path exhausted its wall-clock budget (steps or teardown blocked) "
                       "without a property violation being observed" % prop, {"harness": "atroll", "cases_run": len(cases)}, False)
+    # ---- listed findings: the committed replay must still fail (it prints KNOWN-FINDING and does not alarm)
+    if only is None:
+        for f in vlib.known_findings(prop):
+            fp = os.path.join(vlib.VERIF, f["replay"])
+            fd, _ = vlib.run_harness("atroll", chk.tmp("known.json"), timeout=300, seed=chk.seed, replay=fp)
+            if any(c["oracle"] for c in fd["cases"] or []):
+                chk.known("%s :: %s" % (f["id"], f["what"]))
+            else:
+                print("STALE-FINDING: property=%s %s no longer reproduces" % (prop, f["id"]))
+                chk.notes.append("stale finding " + f["id"])
     if not pr["ok"] and not chk.violations:
         chk.violation("a proof obligation of %s no longer checks (the generated table Gen/UndoFlow.v changed, or a proof broke)" % prop,
                       {"theorem": prop_file, "coq_output": pr["out"][-1500:]}, False)
